@@ -497,11 +497,16 @@ def loadAbs (h : Heap) (id : Nat) (o : Obj) : Except String Heap :=
 children are held by the loading context.  (When the object is abstractly unique but still referenced by
 a block that is alive only at block level, the emitted code takes the shared path; the results are
 related all the same.) -/
-theorem href_load {h : Heap} {rs : List Nat} {next : Nat} {s : HState} {ι : Nat → Nat} {id : Nat} {o : Obj}
+theorem href_load_full {h : Heap} {rs : List Nat} {next : Nat} {s : HState} {ι : Nat → Nat} {id : Nat} {o : Obj}
     (R : HRef h (rs ++ [id]) next s ι) (hg : h.get id = some o) :
     ∃ h' s', loadAbs h id o = .ok h' ∧
       loadObj s (ι id) (o.fields.map kindB) = .ok (s', o.fields.map (fieldImg ι)) ∧
-      HRef h' (rs ++ o.children) next s' ι := by
+      HRef h' (rs ++ o.children) next s' ι ∧
+      (s.mem.get (ι id) ≠ 0 → ∀ a, s'.mem.get a = s.mem.get a ∨
+        ∃ lin lazy live F, InvS s' ((rs ++ o.children).map ι) [] lin lazy live F ∧ a ∈ live) ∧
+      SameHeap s s' ∧
+      (∃ lin lazy live lin' lazy' live' F, InvS s ((rs ++ [id]).map ι) [] lin lazy live F ∧
+        InvS s' ((rs ++ o.children).map ι) [] lin' lazy' live' F) := by
   have he0 : (id, o) ∈ h := heap_get_mem hg
   have O := R.shape _ he0
   have hkne : o.fields.map kindB ≠ [] := by simpa using O.ne
@@ -566,7 +571,11 @@ theorem href_load {h : Heap} {rs : List Nat} {next : Nat} {s : HState} {ι : Nat
       loadFields_release_full _ (o.fields.map kindB) .last (Nat.le_refl _) I0 O.pos hc O.chainOK
         (fun e => absurd e hkne)
     rw [O.vals] at hlf I'
-    refine ⟨h', s', hload, ?_, ?_⟩
+    have Irel : InvS s' ((rs ++ o.children).map ι) [] lin' lazy live' F := by
+      refine InvW.roots_congr I' (fun b hb => ?_)
+      simp only [List.nil_append, if_false, show ¬ (BlockPosition.last = BlockPosition.other) by decide]
+      exact (hroots b hb).symm
+    refine ⟨h', s', hload, ?_, ?_, fun hne => absurd hc hne, hsame, ⟨lin, lazy, live, lin', lazy, live', F, I, Irel⟩⟩
     · simp [loadObj, hkne, hrd, hc, hlf]
     · have hh' : h' = h.remove id := by
         unfold loadAbs at hload
@@ -628,30 +637,51 @@ theorem href_load {h : Heap} {rs : List Nat} {next : Nat} {s : HState} {ι : Nat
       loadFields_share_full _ (o.fields.map kindB) .last (Nat.le_refl _) hi0 hpl O0.chainOK
     simp only at hlf I' hfr
     rw [hpeek, O.vals] at hlf I' hfr
-    refine ⟨h', s', hload, ?_, ?_⟩
+    have hhead : ∀ e ∈ h, IsBlock s.base (ι e.1) :=
+      fun e he => (I.live_block (hlive e he _ (head_mem_blocksOf (R.shape e he)))).1
+    have hf : ∀ a, (∀ e ∈ h, a ≠ ι e.1) → s'.mem.get a = s.mem.get a := by
+      intro a ha
+      by_cases hblk : IsBlock s.base a
+      · have h1 : a ∉ ptrsOf (o.fields.map (fieldImg ι)) := by
+          intro hm
+          -- a pointer of the field images is null or the head of a child
+          have hcnt : 0 < (ptrsOf (o.fields.map (fieldImg ι))).count a := List.count_pos_iff.mpr hm
+          have ha0 : a ≠ 0 := by
+            have := I.base_pos; unfold IsBlock at hblk; omega
+          rw [count_ptrsOf_img ι _ a ha0] at hcnt
+          obtain ⟨c, hc', rfl⟩ := List.mem_map.1 (List.count_pos_iff.mp hcnt)
+          obtain ⟨_, _, hsome⟩ := heapOK_child_live R.abs hg hc'
+          obtain ⟨oc, hoc⟩ := heap_get_isSome_mem hsome
+          exact ha (c, oc) hoc rfl
+        rw [hfr a h1]
+        exact hm0 a (ha (id, o) he0)
+      · rw [hho a hblk]
+        exact hm0 a (ha (id, o) he0)
+    have Ifin : InvS s' ((rs ++ o.children).map ι) [] lin lazy live F :=
+      InvW.roots_congr I' (fun b hb => (hroots b hb).symm)
+    refine ⟨h', s', hload, ?_, ?_, ?_, ⟨hsame.base, hsame.limit⟩, ⟨lin, lazy, live, lin, lazy, live, F, I, Ifin⟩⟩
     · simp [loadObj, hkne, hrd, hc, hwr, hlf]
-    · have hhead : ∀ e ∈ h, IsBlock s.base (ι e.1) :=
-        fun e he => (I.live_block (hlive e he _ (head_mem_blocksOf (R.shape e he)))).1
-      have hf : ∀ a, (∀ e ∈ h, a ≠ ι e.1) → s'.mem.get a = s.mem.get a := by
-        intro a ha
-        by_cases hblk : IsBlock s.base a
-        · have h1 : a ∉ ptrsOf (o.fields.map (fieldImg ι)) := by
-            intro hm
-            -- a pointer of the field images is null or the head of a child
-            have hcnt : 0 < (ptrsOf (o.fields.map (fieldImg ι))).count a := List.count_pos_iff.mpr hm
-            have ha0 : a ≠ 0 := by
-              have := I.base_pos; unfold IsBlock at hblk; omega
-            rw [count_ptrsOf_img ι _ a ha0] at hcnt
-            obtain ⟨c, hc', rfl⟩ := List.mem_map.1 (List.count_pos_iff.mp hcnt)
-            obtain ⟨_, _, hsome⟩ := heapOK_child_live R.abs hg hc'
-            obtain ⟨oc, hoc⟩ := heap_get_isSome_mem hsome
-            exact ha (c, oc) hoc rfl
-          rw [hfr a h1]
-          exact hm0 a (ha (id, o) he0)
-        · rw [hho a hblk]
-          exact hm0 a (ha (id, o) he0)
-      obtain ⟨hw, hhd⟩ := frame_of_head_writes R hsub hf
-      refine R.transfer hsub A' ⟨lin, lazy, live, F, ?_⟩ hw hhd
-      exact InvW.roots_congr I' (fun b hb => (hroots b hb).symm)
+    · obtain ⟨hw, hhd⟩ := frame_of_head_writes R hsub hf
+      exact R.transfer hsub A' ⟨lin, lazy, live, F, Ifin⟩ hw hhd
+    · intro _ a
+      by_cases ha : ∀ e ∈ h, a ≠ ι e.1
+      · exact Or.inl (hf a ha)
+      · refine Or.inr ⟨lin, lazy, live, F, Ifin, ?_⟩
+        have : ∃ e ∈ h, a = ι e.1 := by
+          apply Classical.byContradiction
+          intro hn
+          apply ha
+          intro e he e'
+          exact hn ⟨e, he, e'⟩
+        obtain ⟨e, he, rfl⟩ := this
+        exact hlive e he _ (head_mem_blocksOf (R.shape e he))
+
+theorem href_load {h : Heap} {rs : List Nat} {next : Nat} {s : HState} {ι : Nat → Nat} {id : Nat} {o : Obj}
+    (R : HRef h (rs ++ [id]) next s ι) (hg : h.get id = some o) :
+    ∃ h' s', loadAbs h id o = .ok h' ∧
+      loadObj s (ι id) (o.fields.map kindB) = .ok (s', o.fields.map (fieldImg ι)) ∧
+      HRef h' (rs ++ o.children) next s' ι := by
+  obtain ⟨h', s', a, b, c, _, _, _⟩ := href_load_full R hg
+  exact ⟨h', s', a, b, c⟩
 
 end Scc.Heap.Refine
